@@ -98,6 +98,8 @@ def value(kind, kwargs):
         return (s, -s - 1.0, s * 0.5 + 3.0)
     if kind in ("array", "array-constdim"):  # one output that is a length-3 list
         return [s, s + 0.5, -s]
+    if kind == "nones":  # None is a legal result
+        return None if number(kwargs) % 3 == 0 else s
     if kind == "holes":  # a function that legitimately returns nan for some settings
         return float("nan") if number(kwargs) % 4 == 0 else s
     if kind == "npscalar":  # a numpy scalar, as numerical code returns
